@@ -188,29 +188,37 @@ Definition ex_cid : list Z := [97; 102; 107].                      (* b"afk" *)
 Definition ex_topic : text := Some [116; 49].                      (* "t1" *)
 Definition ex_fetch := [mkFetch ex_topic 3 100 4096; mkFetch (Some [116; 50]) 0 0 1; mkFetch ex_topic 1 7 9;
                         mkFetch ex_topic 3 101 5].
+(* each Example: the encoder returns bytes, the hypotheses of the theorem hold, and the parse is the expected one
+   (closed computations by vm_compute, no existential variables) *)
 Example fetch_nonvacuous :
-  exists w, encode_fetch_request ex_cid 77 ex_fetch 100 4096 2 = Ok w /\
-            topics_present fe_topic ex_fetch = true /\
-            parse_request marker_oracle w =
+  topics_present fe_topic ex_fetch = true /\
+  match encode_fetch_request ex_cid 77 ex_fetch 100 4096 2 with
+  | Ok w => parse_request marker_oracle w =
               Some (mkSreq 1 2 77 (Some ex_cid)
-                     (SFetch (-1) 100 4096 [([116; 49], [(3, 101, 5); (1, 7, 9)]); ([116; 50], [(0, 0, 1)])])).
-Proof. eexists. split; [vm_compute; reflexivity|]. split; vm_compute; reflexivity. Qed.
+                     (SFetch (-1) 100 4096 [([116; 49], [(3, 101, 5); (1, 7, 9)]); ([116; 50], [(0, 0, 1)])]))
+  | Err _ => False
+  end.
+Proof. split; [vm_compute; reflexivity|]. vm_compute. reflexivity. Qed.
 
 Example commit_nonvacuous :
-  exists w, encode_offset_commit_request ex_cid (-5) (Some [103]) 4 (Some [99; 49])
-              [mkCommit ex_topic 0 10 (-1) None; mkCommit ex_topic 1 11 5 (Some [])] = Ok w /\
-            parse_request marker_oracle w =
+  match encode_offset_commit_request ex_cid (-5) (Some [103]) 4 (Some [99; 49])
+          [mkCommit ex_topic 0 10 (-1) None; mkCommit ex_topic 1 11 5 (Some [])] with
+  | Ok w => parse_request marker_oracle w =
               Some (mkSreq 8 1 (-5) (Some ex_cid)
-                     (SOffsetCommit [103] 4 [99; 49] [([116; 49], [(0, 10, -1, None); (1, 11, 5, Some [])])])).
-Proof. eexists. split; vm_compute; reflexivity. Qed.
+                     (SOffsetCommit [103] 4 [99; 49] [([116; 49], [(0, 10, -1, None); (1, 11, 5, Some [])])]))
+  | Err _ => False
+  end.
+Proof. vm_compute. reflexivity. Qed.
 
 Example join_nonvacuous :
-  exists w, encode_join_group_request ex_cid 1 (mkJoin (Some [103; 233]) 30000 (Some []) (Some [99])
-              [(Some [114; 114], Some [0; 0; 0; 0; 0; 0; 255; 255; 255; 255])]) = Ok w /\
-            parse_request marker_oracle w =
+  match encode_join_group_request ex_cid 1 (mkJoin (Some [103; 233]) 30000 (Some []) (Some [99])
+          [(Some [114; 114], Some [0; 0; 0; 0; 0; 0; 255; 255; 255; 255])]) with
+  | Ok w => parse_request marker_oracle w =
               Some (mkSreq 11 0 1 (Some ex_cid)
-                     (SJoinGroup [103; 195; 169] 30000 [] [99] [([114; 114], [0; 0; 0; 0; 0; 0; 255; 255; 255; 255])])).
-Proof. eexists. split; vm_compute; reflexivity. Qed.
+                     (SJoinGroup [103; 195; 169] 30000 [] [99] [([114; 114], [0; 0; 0; 0; 0; 0; 255; 255; 255; 255])]))
+  | Err _ => False
+  end.
+Proof. vm_compute. reflexivity. Qed.
 
 Definition ex_table : table := [mkEntry 18 0 0; mkEntry 1 0 5; mkEntry 0 0 3; mkEntry 3 0 2].
 Example negotiation_nonvacuous :
@@ -218,4 +226,4 @@ Example negotiation_nonvacuous :
   negotiate true [Unavailable; Answer 0 ex_table] = Some (mkChoice 3 2 (Some 2) 5 2 (Some 2) 1) /\
   negotiate true [Unavailable; Unavailable; Answer 35 []] = Some fallback_choice /\
   negotiate true [Unavailable; Unavailable] = None.
-Proof. repeat split; vm_compute; reflexivity. Qed.
+Proof. split; [vm_compute; reflexivity|]. split; [vm_compute; reflexivity|]. split; vm_compute; reflexivity. Qed.
